@@ -94,6 +94,12 @@ var gens = []generator{
 	{file: "ParsPrelude.lean", src: "(fixed prelude of the go-pars translator: checked slice operations, the result value, loops)", run: genParsPrelude},
 	{file: "Pars.lean", src: "the module directory of github.com/go-pars/pars (stack.go, state.go and the primitive parsers as functions)", run: genParsFns},
 	{file: "ParsFacts.lean", src: "the module directory of github.com/go-pars/pars (pin, inventory of what gts uses, the reached declarations as facts)", run: genParsFacts},
+	{file: "CmdSelect.lean", src: "cmd/gts/select.go (the filter, the step), clear.go, define.go, annotate.go (the per-record steps)", run: genCmdSelect},
+	{file: "CmdReverse.lean", src: "cmd/gts/reverse.go, complement.go (the per-record steps)", run: genCmdReverse},
+	{file: "CmdRepair.lean", src: "cmd/gts/repair.go (the per-record step)", run: genCmdRepair},
+	{file: "CmdSearch.lean", src: "cmd/gts/search.go (the per-record step)", run: genCmdSearch},
+	{file: "CmdSort.lean", src: "cmd/gts/sort.go (byLength.Less)", run: genCmdSort},
+	{file: "CmdFacts.lean", src: "cmd/gts/*.go (the command functions without a regenerated tie of their own, as facts; the inventory of cmd/gts)", run: genCmdFacts},
 }
 
 func writeIfChanged(path string, content []byte) (bool, error) {
